@@ -40,9 +40,10 @@ def to_smtlib(e, lit=smt_str):
             return lit(e[1])
         if e[0] == "i":
             return str(e[1]) if e[1] >= 0 else f"(- {-e[1]})"
-        if len(e) == 1:
+        if len(e) == 1 and isinstance(e[0], str):
             return e[0]
-        return "(" + " ".join([e[0]] + [to_smtlib(a, lit) for a in e[1:]]) + ")"
+        head = e[0] if isinstance(e[0], str) else "(" + " ".join(map(str, e[0])) + ")"
+        return "(" + " ".join([head] + [to_smtlib(a, lit) for a in e[1:]]) + ")"
     return str(e)
 
 
@@ -53,7 +54,10 @@ def to_isla(e):
 def variables(e, acc=None):
     acc = [] if acc is None else acc
     if isinstance(e, list):
-        if e[0] == "v":
+        if isinstance(e[0], list):
+            for a in e[1:]:
+                variables(a, acc)
+        elif e[0] == "v":
             if e[1] not in acc:
                 acc.append(e[1])
         elif e[0] not in ("s", "i"):
@@ -73,7 +77,7 @@ def uses(e, op):
 def to_int_args(e, acc=None):
     """argument expressions of str.to.int / str.to_int applications"""
     acc = [] if acc is None else acc
-    if isinstance(e, list) and e[0] not in ("v", "s", "i"):
+    if isinstance(e, list) and (isinstance(e[0], list) or e[0] not in ("v", "s", "i")):
         if e[0] in ("str.to.int", "str.to_int"):
             acc.append(e[1])
         for a in e[1:]:
